@@ -10,6 +10,7 @@ PID = "C16"
 HEADER = ("From Coq Require Import ZArith List PrimFloat.\n"
           "From Hy Require Import Base.Num Model.Grid Model.Intersect.")
 
+NSESS_QUICK = 60     # operation sequences in the quick tier
 EDGE = 1e-9          # a centre closer than this (in coarse cells) to a cell edge may go either side
 WTOL = 1e-12         # relative tolerance per accumulated addition on a weight
 
@@ -32,24 +33,31 @@ def mkcatchment(case):
     return Catchment.from_dict(dic)
 
 
-def impl_intersect(case):
-    cat = mkcatchment(case)
-    grid = mkgrid(case["nrows"], case["ncols"], case["xll"], case["yll"], case["csz"])
-    cm.mark(case)
-    try:
-        ag, idx, w = cat.intersect(grid, filled=case["filled"])
-    except ValueError:
-        return None
-    idx = [int(v) for v in idx]
-    w = [float(v) for v in w]
+def extract_result(ag, idx, w):
+    """The values of a result (area_grid, idxcells, weights) of Catchment.intersect, as plain Python."""
     data = np.asarray(ag.data, dtype=np.float64)
-    return {"idx": idx, "w": w,
+    return {"idx": [int(v) for v in idx], "w": [float(v) for v in w],
             "rc": [int(ag.parentgrid_rows_start), int(ag.parentgrid_rows_end),
                    int(ag.parentgrid_cols_start), int(ag.parentgrid_cols_end)],
             "ll": [float(ag.xllcorner), float(ag.yllcorner)],
             "shape": [int(data.shape[0]), int(data.shape[1])],
             "data": [float(v) for v in data.ravel()],
             "ag_csz": float(ag.cellsize)}
+
+
+def call_intersect(cat, case):
+    """cat.intersect on the coarse grid of `case`; returns (values, the live result objects)."""
+    grid = mkgrid(case["nrows"], case["ncols"], case["xll"], case["yll"], case["csz"])
+    cm.mark(case)
+    try:
+        live = cat.intersect(grid, filled=case["filled"])
+    except ValueError:
+        return None, None
+    return extract_result(*live), live
+
+
+def impl_intersect(case):
+    return call_intersect(mkcatchment(case), case)[0]
 
 
 def impl_kernel(case):
@@ -74,6 +82,104 @@ def impl_voronoi(case):
     with np.errstate(all="ignore"):
         w = voronoi(cat, np.array(case["pts"], dtype=np.float64).reshape(-1, 2))
     return [float(v) for v in w]
+
+
+class _Axis:
+    """Stand-in for a matplotlib axis: Catchment.plot_area only calls ax.plot."""
+
+    def plot(self, *args, **kwargs):
+        return []
+
+
+def run_session(case, on_intersect, on_voronoi):
+    """One or several Catchment objects on the same flow-direction grid taken through a sequence of
+    public operations (case["ops"]).  At every `intersect` / `voronoi` step the cell set of the object
+    is read through its public accessors (idxcells_area, idxcells_area_filled) just before the call and
+    the step is handed to on_intersect / on_voronoi as an ordinary single-call case: the result has to be
+    the one the property states for the cell set the object holds *now*, whatever was done before with
+    the object or with the objects it was derived from.
+
+    Operations (slot numbers name the objects):
+      new s outlet | delineate s outlet (re-delineation of an existing object) | fromdict s cells cellsf |
+      add d a b | sub d a b | clone d a | roundtrip d a (from_dict(to_dict)) |
+      intersect s grid filled | voronoi s pts | plot s filled | touch s what
+    A state-changing operation the library refuses (exception) drops the object; later steps on a
+    missing object are skipped, so that every stored session replays deterministically.
+    Returns the list of (token, sub-case, values at the time of the call, live result objects)."""
+    from hydrodiy.gis.grid import Catchment, voronoi
+    geo = {k: case[k] for k in ("nr_a", "nc_a", "xll_a", "yll_a", "csz_a")}
+    fd = mkgrid(geo["nr_a"], geo["nc_a"], geo["xll_a"], geo["yll_a"], geo["csz_a"], dtype=np.int64)
+    fd.data = np.array(case["fd"], dtype=np.int64).reshape(geo["nr_a"], geo["nc_a"])
+    objs = {}
+    delineated = set()      # objects whose area comes from delineate_area (connected, filled by scipy)
+    held = []
+    for step, op in enumerate(case["ops"]):
+        name, slot = op[0], op[1]
+        cm.mark({"session": case, "step": step})
+        if name in ("new", "delineate", "fromdict", "add", "sub", "clone", "roundtrip"):
+            try:
+                if name == "new":
+                    cat = Catchment(f"c{slot}", fd)
+                    cat.delineate_area(op[2])
+                elif name == "delineate":
+                    cat = objs.get(slot)
+                    if cat is None:
+                        continue
+                    cat.delineate_area(op[2])
+                elif name == "fromdict":
+                    cat = mkcatchment(dict(geo, cells=op[2], cellsf=op[3]))
+                elif op[2] not in objs or (name in ("add", "sub") and op[3] not in objs):
+                    continue
+                elif name == "add":
+                    cat = objs[op[2]] + objs[op[3]]
+                elif name == "sub":
+                    cat = objs[op[2]] - objs[op[3]]
+                elif name == "clone":
+                    cat = objs[op[2]].clone()
+                else:
+                    cat = Catchment.from_dict(objs[op[2]].to_dict())
+                objs[slot] = cat
+                delineated.discard(slot)
+                if name in ("new", "delineate"):
+                    delineated.add(slot)
+            except Exception:
+                objs.pop(slot, None)
+            continue
+        cat = objs.get(slot)
+        if cat is None:
+            continue
+        if name == "intersect":
+            sub = dict(geo, kind="intersect", cells=[int(v) for v in cat.idxcells_area],
+                       cellsf=[int(v) for v in cat.idxcells_area_filled], filled=op[3],
+                       dyadic=case.get("dyadic"), mode="session", **op[2])
+            r, live = call_intersect(cat, sub)
+            held.append((on_intersect(sub, r, step), sub, r, live))
+        elif name == "voronoi":
+            sub = dict(geo, kind="voronoi", cells=[int(v) for v in cat.idxcells_area], pts=op[2],
+                       dyadic=bool(case.get("dyadic")) and all(
+                           abs(v) < 2 ** 21 and (v * 16).is_integer() for p in op[2] for v in p))
+            with np.errstate(all="ignore"):
+                w = voronoi(cat, np.array(op[2], dtype=np.float64).reshape(-1, 2))
+            on_voronoi(sub, [float(v) for v in w], step)
+        else:
+            # readers that are not part of the property: whatever they do or raise is not judged here,
+            # they only have to leave intersect / voronoi correct afterwards
+            try:
+                if name == "plot":
+                    cat.plot_area(_Axis(), filled=op[2])
+                elif op[2] == "extent":
+                    cat.extent()
+                elif op[2] == "isin":
+                    cat.isin(0, filled=True), cat.isin(0)
+                elif op[2] == "to_dict":
+                    cat.to_dict()
+                elif op[2] == "str":
+                    str(cat)
+                elif op[2] == "boundary" and slot in delineated and len(cat.idxcells_area) > 0:
+                    cat.delineate_boundary()
+            except Exception:
+                pass
+    return held
 
 
 # ----------------------------------------------------------------------------
@@ -488,6 +594,121 @@ def gen_voronoi(rng, S):
             "cells": cells, "pts": [list(p) for p in pts], "dyadic": dyadic}
 
 
+def gen_comb(rng, nr, nc):
+    """Flow directions (ESRI codes) of a `comb`: every column drains south into the bottom row, which
+    drains east / west to the nearest of a few outlets, so that the outlets' catchments are bands of
+    columns lying side by side (their unions / differences are meaningful); a few interior sinks whose
+    upper neighbour is diverted sideways leave one-cell holes (filled area != area).
+    Returns (codes, outlets)."""
+    fd = [4] * (nr * nc)
+    outs = sorted(rng.sample(range(nc), min(nc, rng.choice([1, 2, 2, 3]))))
+    for k in range(nc):
+        o = min(outs, key=lambda v: (abs(v - k), v))
+        fd[(nr - 1) * nc + k] = 0 if o == k else 1 if o > k else 16
+    if nr >= 3 and nc >= 3:
+        for _ in range(rng.choice([0, 0, 1, 2])):
+            r, k = rng.randint(1, nr - 2), rng.randint(1, nc - 2)
+            fd[r * nc + k] = 0
+            fd[(r - 1) * nc + k] = rng.choice([1, 16])
+    return fd, [(nr - 1) * nc + o for o in outs]
+
+
+def gen_coarse(rng, G, dyadic, nr, nc, xll_a, yll_a, csz_a):
+    """A coarser grid placed relative to the fine grid: covering / offsets on half fine cells (centres on
+    coarse edges, partial overlap) / anywhere (may miss the catchment)."""
+    ratio = rng.choice([1, 2, 2, 3, 4, 4, 1.5, 2.5]) if dyadic else rng.choice([1, 2, 3, 4, rng.uniform(1, 4)])
+    csz = csz_a * ratio
+    gr, gc = rng.randint(1, G), rng.randint(1, G)
+    wx, wy = nc * csz_a, nr * csz_a
+    m = rng.random()
+    if m < 0.6:
+        ox, oy = -csz * rng.choice([0, 1, 0.5]), -csz * rng.choice([0, 1, 0.5])
+        gc = max(gc, int(math.ceil((wx - ox) / csz)))
+        gr = max(gr, int(math.ceil((wy - oy) / csz)))
+    elif m < 0.94:
+        ox, oy = rng.choice(DYADIC) * csz_a, rng.choice(DYADIC) * csz_a
+    else:
+        ox, oy = rng.uniform(-1, 1) * (wx + gc * csz) / 2, rng.uniform(-1, 1) * (wy + gr * csz) / 2
+        if dyadic:
+            ox, oy = round(ox * 8) / 8, round(oy * 8) / 8
+    return {"nrows": gr, "ncols": gc, "xll": xll_a + ox, "yll": yll_a + oy, "csz": csz}
+
+
+def gen_session(rng, S, G):
+    """Operation sequence on a few Catchment objects sharing one flow-direction grid (see run_session):
+    objects are delineated, used (intersect with several grids and both `filled` flags, voronoi, plot_area,
+    extent, isin, to_dict, delineate_boundary), combined (+, -), cloned, sent through to_dict/from_dict,
+    re-delineated at another outlet, used again; every object alive at the end is intersected once more
+    with both flags."""
+    from harness.props import c06
+    dyadic = rng.random() < 0.75
+    _, _, xll_a, yll_a, csz_a = gen_fine(rng, S, dyadic)
+    nr, nc = rng.randint(2, min(S, 8)), rng.randint(2, min(S, 8))
+    n = nr * nc
+    if rng.random() < 0.7:
+        fd, outlets = gen_comb(rng, nr, nc)
+    else:
+        fd = c06.rand_acyclic(rng, nr, nc)
+        outlets = [c for c in range(n) if fd[c] not in c06.ESRI or not (
+            0 <= c // nc + c06.ESRI[fd[c]][0] < nr and 0 <= c % nc + c06.ESRI[fd[c]][1] < nc)] or [n - 1]
+        rng.shuffle(outlets)
+    grids = [gen_coarse(rng, G, dyadic, nr, nc, xll_a, yll_a, csz_a) for _ in range(rng.choice([1, 2, 2, 3]))]
+
+    def pick_outlet():
+        return rng.choice(outlets) if rng.random() < 0.7 else rng.randrange(n)
+
+    def points():
+        return [[xll_a + csz_a * rng.randint(-4, 2 * nc + 4) / 2, yll_a + csz_a * rng.randint(-4, 2 * nr + 4) / 2]
+                for _ in range(rng.randint(1, 4))]
+
+    def use(s):
+        m = rng.random()
+        if m < 0.62:
+            return ["intersect", s, rng.choice(grids), rng.random() < 0.4]
+        if m < 0.72:
+            return ["voronoi", s, points()]
+        if m < 0.84:
+            return ["plot", s, rng.random() < 0.4]
+        return ["touch", s, rng.choice(["extent", "isin", "to_dict", "str", "boundary"])]
+
+    ops, slots = [], []
+    for s in range(rng.choice([1, 2, 2, 3])):
+        if rng.random() < 0.85:
+            ops.append(["new", s, outlets[s % len(outlets)] if rng.random() < 0.8 else rng.randrange(n)])
+        else:
+            cells = gen_cells(rng, n)
+            ops.append(["fromdict", s, cells, sorted(set(cells) | {c for c in range(n) if rng.random() < 0.15})])
+        slots.append(s)
+        for _ in range(rng.choice([0, 1, 1, 2])):
+            ops.append(use(s))
+    for _ in range(rng.randint(2, 5)):
+        m = rng.random()
+        if m < 0.5:
+            d = rng.choice(slots + [len(slots)]) if len(slots) < 5 else rng.choice(slots)
+            ops.append([rng.choice(["add", "add", "sub"]), d, rng.choice(slots), rng.choice(slots)])
+        elif m < 0.65:
+            d = len(slots) if len(slots) < 5 else rng.choice(slots)
+            ops.append([rng.choice(["clone", "roundtrip"]), d, rng.choice(slots)])
+        elif m < 0.85:
+            d = rng.choice(slots)
+            ops.append(["delineate", d, pick_outlet()])
+        else:
+            d = rng.choice(slots)
+        if d not in slots:
+            slots.append(d)
+        for _ in range(rng.choice([0, 1, 1, 2])):
+            ops.append(use(rng.choice([d, d, rng.choice(slots)])))
+    for s in slots:
+        g = rng.choice(grids)
+        first = rng.random() < 0.5
+        ops.append(["intersect", s, g, first])
+        ops.append(["intersect", s, g if rng.random() < 0.7 else rng.choice(grids), not first])
+        if rng.random() < 0.3:
+            ops.append(["voronoi", s, points()])
+    return {"kind": "session", "nr_a": nr, "nc_a": nc, "xll_a": xll_a, "yll_a": yll_a, "csz_a": csz_a,
+            "dyadic": dyadic, "fd": fd, "ops": ops}
+
+
 # ----------------------------------------------------------------------------
 
 def run(ctx):
@@ -512,7 +733,7 @@ def run(ctx):
     terms, replays = [], []
     orc_fail = set()
     stats = {"intersect": 0, "intersect_error": 0, "intersect_edge_ambiguous": 0, "kernel": 0,
-             "voronoi": 0, "voronoi_cells_with_ties": 0, "voronoi_empty": 0}
+             "voronoi": 0, "voronoi_cells_with_ties": 0, "voronoi_empty": 0, "session": 0, "session_steps": 0}
 
     def add(term, replay, sig):
         terms.append(term)
@@ -526,20 +747,25 @@ def run(ctx):
         orc_fail.add(idx)
         ctx.failure(key, replays[idx], what)
 
-    def do_intersect(case):
-        r = impl_intersect(case)
+    def check_intersect(case, r, replay, sig_head=("inter",)):
+        """Oracle + correspondence term for one call of Catchment.intersect with outcome r."""
         fails, (sure_in, may_in) = oracle_intersect(case, r)
         cs = case["cellsf"] if case["filled"] else case["cells"]
-        sig = ("inter", r is None, min(len(cs), 3), min(len(r["idx"]) if r else 0, 3), sure_in != may_in,
-               sure_in == len(cs), sure_in == 0, case["filled"], case.get("dyadic"),
-               round(case["csz"] / case["csz_a"], 1) if case["csz_a"] else None,
-               case["nrows"] == 1, case["ncols"] == 1)
-        i = add(term_intersect(case, r), dict(case, call="Catchment.intersect", impl=r), sig)
+        sig = sig_head + (r is None, min(len(cs), 3), min(len(r["idx"]) if r else 0, 3), sure_in != may_in,
+                          sure_in == len(cs), sure_in == 0, case["filled"], case.get("dyadic"),
+                          round(case["csz"] / case["csz_a"], 1) if case["csz_a"] else None,
+                          case["nrows"] == 1, case["ncols"] == 1)
+        i = add(term_intersect(case, r), replay, sig)
         stats["intersect"] += 1
         stats["intersect_error"] += r is None
         stats["intersect_edge_ambiguous"] += sure_in != may_in
         for suffix, msg in fails:
             fail(i, f"C16/intersect/{suffix}", msg)
+        return i
+
+    def do_intersect(case):
+        r = impl_intersect(case)
+        check_intersect(case, r, dict(case, call="Catchment.intersect", impl=r))
 
     def do_kernel(case):
         ierr, idx, w = impl_kernel(case)
@@ -550,19 +776,58 @@ def run(ctx):
         if ierr != 0:
             fail(i, "C16/intersect/kernel-error", f"c_intersect returned {ierr}")
 
-    def do_voronoi(case):
-        w = impl_voronoi(case)
+    def check_voronoi(case, w, replay, sig_head=("vor",)):
         fails, nties = oracle_voronoi(case, w)
-        i = add(term_voronoi(case, w), dict(case, call="voronoi", impl=w),
-                ("vor", min(len(case["cells"]), 3), len(case["pts"]), nties > 0, case["dyadic"],
-                 len(case["pts"]) > len(case["cells"])))
+        i = add(term_voronoi(case, w), replay,
+                sig_head + (min(len(case["cells"]), 3), len(case["pts"]), nties > 0, case["dyadic"],
+                            len(case["pts"]) > len(case["cells"])))
         stats["voronoi"] += 1
         stats["voronoi_cells_with_ties"] += nties
         stats["voronoi_empty"] += len(case["cells"]) == 0
         for suffix, msg in fails:
             fail(i, f"C16/voronoi/{suffix}", msg)
+        return i
 
-    DO = {"intersect": do_intersect, "kernel": do_kernel, "voronoi": do_voronoi}
+    def do_voronoi(case):
+        w = impl_voronoi(case)
+        check_voronoi(case, w, dict(case, call="voronoi", impl=w))
+
+    def do_session(case):
+        """Every intersect / voronoi step of the session is an ordinary case (oracle + correspondence) for
+        the cell set the object holds at that step; its replay is the whole session up to that step."""
+        def history(step):
+            # what had been done with the objects before this step: the signature of the step
+            ops = case["ops"][:step]
+            return (tuple(sorted({o[0] for o in ops})), case["ops"][step][0])
+
+        def replay(step, call, sub, impl):
+            return dict(case, ops=case["ops"][:step + 1], step=step, call=call, checked_as=sub, impl=impl)
+
+        def on_intersect(sub, r, step):
+            stats["session_steps"] += 1
+            return check_intersect(sub, r, replay(step, "Catchment.intersect at the last step of the session", sub, r),
+                                   ("sess-inter", history(step)))
+
+        def on_voronoi(sub, w, step):
+            stats["session_steps"] += 1
+            return check_voronoi(sub, w, replay(step, "voronoi at the last step of the session", sub, w),
+                                 ("sess-vor", history(step)))
+
+        stats["session"] += 1
+        held = run_session(case, on_intersect, on_voronoi)
+        # the results handed out earlier still have to be what the property states once the session is over
+        # (a result that shares storage with the object or with a later result is overwritten by later calls)
+        for i, sub, r, live in held:
+            if r is None:
+                continue
+            r2 = extract_result(*live)
+            if r2 != r:
+                for suffix, msg in oracle_intersect(sub, r2)[0]:
+                    replays[i] = dict(case, step=replays[i]["step"], call="Catchment.intersect at step `step`, result "
+                                      "read again after the whole session", checked_as=sub, impl_at_call=r, impl=r2)
+                    fail(i, f"C16/intersect/{suffix}", "result changed by later calls on the same objects: " + msg)
+
+    DO = {"intersect": do_intersect, "kernel": do_kernel, "voronoi": do_voronoi, "session": do_session}
 
     # ---- a replay file given on the command line, then the corpus (earlier failures, DESIGN section 6 row 11)
     rp = getattr(ctx, "replay", None)
@@ -583,6 +848,8 @@ def run(ctx):
         do_intersect(gen_delineated(rng, S))
     for _ in range(ctx.scale(400, 4000)):
         do_kernel(gen_kernel(rng, G))
+    for _ in range(ctx.scale(NSESS_QUICK, 1500)):
+        do_session(gen_session(rng, S, G))
     for _ in range(ctx.scale(900, 12000)):
         do_voronoi(gen_voronoi(rng, S))
 
